@@ -25,12 +25,24 @@ def _one(job):
     kl = "\n".join(keylog) + "\n"
     c = conns[0]
     n = len(cap.pkts)
-    prev = {"c": b"", "s": b""}
+    prev = {(i, d): b"" for i in range(len(conns)) for d in "cs"}
     bad, runs = [], 0
     evs_last = None
     cuts = range(n + 1) if n <= 60 else sorted(set(range(0, n + 1, 2)) | {n})
+    # secrets inside the capture: one secrets block per connection right before its first packet (a cut drops the blocks behind it)
+    dsbs = None
+    if sc.get("dsb_per_conn"):
+        firsts = {}
+        for i, m in enumerate(cap.meta):
+            ci = getattr(m, "conn", None)
+            if ci is not None:
+                firsts.setdefault(ci, i)
+        dsbs = [(firsts.get(ci, 0), ("\n".join(cn.keylog) + "\n").encode()) for ci, cn in enumerate(conns)]
     for k in cuts:
-        res = runner.run_inproc(pcapng_bytes(cap.pkts[:k]), kl, opts=sc.get("opts", []), trace=(k == n or k % 7 == 3))
+        if dsbs is None:
+            res = runner.run_inproc(pcapng_bytes(cap.pkts[:k]), kl, opts=sc.get("opts", []), trace=(k == n or k % 7 == 3))
+        else:
+            res = runner.run_inproc(pcapng_bytes(cap.pkts[:k], dsbs=[(p_, t_) for p_, t_ in dsbs if p_ < k]), None, opts=sc.get("opts", []))
         runs += 1
         obs, o = observe_tls(res, conns, flows, sc.get("opts", []))
         if obs["crashed"]:
@@ -39,19 +51,20 @@ def _one(job):
         if obs["problems"]:
             bad.append(f"cut after packet {k}: output malformed: {obs['problems'][0]}")
             break
-        got = obs["conns"][0] if obs["conns"] else dict(c=b"", s=b"")
-        for d in "cs":
-            if not got[d].startswith(prev[d]):
-                bad.append(f"cut after packet {k}: direction {d} export ({len(got[d])} bytes) does not extend the export of the previous cut "
-                           f"({len(prev[d])} bytes): data was retracted or altered")
-            if not c.truth(d).startswith(got[d]):
-                bad.append(f"cut after packet {k}: direction {d} export is not a prefix of the data sent (wrong, reordered or invented bytes)")
-            prev[d] = got[d]
+        for i, cn in enumerate(conns):
+            got = obs["conns"][i] if len(obs["conns"]) > i else dict(c=b"", s=b"")
+            for d in "cs":
+                if not got[d].startswith(prev[(i, d)]):
+                    bad.append(f"cut after packet {k}: connection {i} direction {d} export ({len(got[d])} bytes) does not extend the export of the previous cut "
+                               f"({len(prev[(i, d)])} bytes): data was retracted or altered")
+                if not cn.truth(d).startswith(got[d]):
+                    bad.append(f"cut after packet {k}: connection {i} direction {d} export is not a prefix of the data sent (wrong, reordered or invented bytes)")
+                prev[(i, d)] = got[d]
         if bad:
             break
         if res.events and k != n:
             evs_last = (k, res.events)
-    if not bad and (prev["c"] != c.truth("c") or prev["s"] != c.truth("s")):
+    if not bad and any(prev[(i, d)] != cn.truth(d) for i, cn in enumerate(conns) for d in "cs"):
         bad.append("full capture: export differs from the data sent")
     from harness.tracecheck import tls_truth
     out = dict(sc=sc, bad=bad, runs=runs, npk=n)
@@ -65,6 +78,48 @@ def _one(job):
 
 class _C:
     pass
+
+
+def _one_quic(job):
+    """every cut 0..N of a QUIC capture: per direction the list of exported datagram payloads is a prefix of the list from the full capture,
+    which equals the stream data sent"""
+    from harness.quicrun import build_conn as qbuild, observed_dgrams
+    from wire.capture import Capture, udp_capture
+    from wire.l2l4 import mk_flow
+    b, seed, params = job
+    try:
+        c, payload = qbuild(b, seed, params)
+    except Exception:
+        import traceback
+        return dict(machinery=traceback.format_exc()[-1500:])
+    fl = mk_flow(0, ipv=params.get("ipv", 4))
+    cap = udp_capture([(fl, g.d, g.payload, g) for g in c.dgrams], cap=Capture(ts0=1_700_000_000_000_000, step=1009))
+    kl = "\n".join(c.keylog) + "\n"
+    truth = {d: [g.stream for g in c.dgrams if g.stream and g.d == d] for d in "cs"}
+    prev = {"c": [], "s": []}
+    bad, runs = [], 0
+    for k in range(len(cap.pkts) + 1):
+        res = runner.run_inproc(pcapng_bytes(cap.pkts[:k]), kl)
+        runs += 1
+        if res.crashed:
+            bad.append(f"cut after datagram {k}: run aborted: " + res.exc.strip().splitlines()[-1])
+            break
+        got, probs = observed_dgrams(res, fl)
+        if probs:
+            bad.append(f"cut after datagram {k}: output malformed: {probs[0]}")
+            break
+        for d in "cs":
+            gl = [pl for dd, _ts, pl in (got or []) if dd == d]
+            if gl[:len(prev[d])] != prev[d]:
+                bad.append(f"cut after datagram {k}: direction {d} export does not extend the export of the previous cut (retracted, altered or attributed to the other direction)")
+            if gl != truth[d][:len(gl)]:
+                bad.append(f"cut after datagram {k}: direction {d} export is not a prefix of the stream data sent")
+            prev[d] = gl
+        if bad:
+            break
+    if not bad and prev != truth:
+        bad.append("full capture: export differs from the stream data sent")
+    return dict(b=b, seed=seed, params=params, bad=bad, runs=runs, npk=len(cap.pkts))
 
 
 def run(chk):
@@ -102,6 +157,12 @@ def run(chk):
                 nre += b in reordered
                 jobs.append(sc)
     chk.extra["reordered_schedules_cut_everywhere"] = nre
+    # two connections whose secrets travel in the capture, one secrets block per connection (a later block must not retract what an earlier one made exportable)
+    for i in range(6 if quick else 60):
+        ka, kb = c05.KINDS[i % len(c05.KINDS)], c05.KINDS[(i * 3 + 1) % len(c05.KINDS)]
+        cds = [dict(ver=k[0], suite=k[1], seed=rng.randrange(1 << 30), shape={}, app=[["c", 40], ["s", rng.choice([300, 2000])], ["c", 5]], flow=dict(idx=j),
+                    mss=rng.choice([None, 200])) for j, k in enumerate((ka, kb))]
+        jobs.append(dict(conns=cds, dsb_per_conn=True))
     results = pool_map(_one, jobs, chunksize=1)
     truns = []
     for res in results:
@@ -120,11 +181,29 @@ def run(chk):
             truns.append(dict(conn=c, events=res["events"], truth=res["truth"], complete=False, sc=res["sc"]))
     from harness.tracecheck import validate_tls
     validate_tls(chk, truns)
+    # QUIC: behaviours of Quic.tla (handshake shapes, 0.5-RTT data, a client Finished / NewSessionTicket-like CRYPTO-only datagram after the
+    # peer's stream data, key updates), every cut
+    from checks import c02
+    qb = c02.gen(chk, dict(MaxApp="3", Splits='{<<1>>,<<2,1>>}'), 12 if quick else 150, chk.seed + 9)
+    qb += c02.gen(chk, dict(SuiteSet='{"1301","1303"}', OfferFirst='{"same"}', Splits='{<<1>>}', Retries="{FALSE}", ZeroRtts="{FALSE}", MaxApp="4", MaxGen="3"), 6 if quick else 80, chk.seed + 10)
+    qb = [b for b in qb if not b["kf"]]
+    rng.shuffle(qb)
+    nq = 0
+    for res in pool_map(_one_quic, [(b, rng.randrange(1 << 30), dict(c_cid_len=rng.choice([0, 8]), s_cid_len=8, pnlen={"c": 2, "s": 2}, ipv=rng.choice([4, 6])))
+                                    for b in qb[: 60 if quick else 1200]], chunksize=1):
+        if "machinery" in res:
+            raise Exception("replay failed in the harness: " + res["machinery"])
+        chk.evaluations += res["runs"]
+        nq += 1
+        chk.distinct.add(json.dumps(["quic", res["seed"]]))
+        for b_ in res["bad"]:
+            chk.violation("QUIC " + b_, dict(behaviour=res["b"], seed=res["seed"], params=res["params"], findings=res["bad"]))
+    chk.extra["quic_captures_cut_everywhere"] = nq
     chk.extra["captures"] = len(jobs)
     chk.rule = ("captures = TLC behaviours of TlsSession (all versions/families/handshake shapes, <= 4 application records) with a seeded "
                 "segmentation plus Reasm schedules; for each capture every cut position 0..N (every second one above 60 packets) is a "
                 "separate run; evaluations = runs; distinct = distinct captures")
-    chk.assumptions += ["QUIC cuts are checked by C02's generator (see C02)"]
+    chk.assumptions += ["a cut is a cut between captured packets (a file truncated inside a block is not a capture cut)"]
 
 
 def replay(chk, path):
